@@ -2,6 +2,7 @@ package main
 
 import (
 	"fmt"
+	"go/token"
 	"go/types"
 	"sort"
 	"strings"
@@ -1232,4 +1233,291 @@ func ruleStoreNotBuffered(c *Check, p *Prog, rule string, pkgPrefix string) {
 	default:
 		c.Bad(rule, inst, "", strings.TrimPrefix(bad[0][strings.LastIndex(bad[0], "@")+1:], " "), "the component's datastore is wrapped by "+strings.Join(bad, ", ")+": a wrapper that holds writes back (or delays / redirects them) acknowledges a write that is not yet in the node's datastore — what was accepted before a stop or crash is gone after the restart, and deletions that were acknowledged come back", nil)
 	}
+}
+
+// ruleNoStaleReadAcrossUnlock (C13-R17 / C20-R17): check-then-act. Inside one method of a type
+// that guards its state with a mutex, a value read from the receiver's state under the lock and
+// then — after the lock was released and taken again — used to decide where or what is written
+// into that state is stale by then: another goroutine may have changed what was read (the DA
+// height a submission is filed under, read before a long computation and used after it, when the
+// height has already been published and scanned as empty). The read and the write that depends on
+// it sit in one critical section.
+func ruleNoStaleReadAcrossUnlock(c *Check, rule string, progs []*Prog) {
+	c.Doc(rule, "LS: in no method of a mutex-guarded type does a store or map update to the receiver's state, made with the lock held, use (as key, index or value) a value derived from a load of the receiver's state made in an earlier critical section of the same call — i.e. with a release of that mutex on a path between the load and the write.")
+	isMutexT := func(t types.Type) bool {
+		s := strings.TrimPrefix(t.String(), "*")
+		return s == "sync.Mutex" || s == "sync.RWMutex"
+	}
+	nTypes := 0
+	seen := map[string]bool{}
+	for _, p := range progs {
+		for _, fn := range p.Funcs {
+			pk := fnPkg(fn)
+			if pk == nil || !strings.HasPrefix(pk.Pkg.Path(), rootPath) || fn.Blocks == nil || fn.Signature.Recv() == nil || len(fn.Params) == 0 {
+				continue
+			}
+			pp := pk.Pkg.Path()
+			if strings.Contains(pp, "/test/") || strings.Contains(pp, "/mocks") || strings.HasSuffix(pp, "/bench") {
+				continue
+			}
+			recv := fn.Params[0]
+			st := derefStruct(recv.Type())
+			if st == nil {
+				continue
+			}
+			mu := ""
+			for i := 0; i < st.NumFields(); i++ {
+				if isMutexT(st.Field(i).Type()) {
+					mu = fieldLabel(recv.Type(), i)
+				}
+			}
+			if mu == "" {
+				continue
+			}
+			key := fnName(fn)
+			if seen[key] {
+				continue
+			}
+			seen[key] = true
+			// loads of the receiver's (non-mutex) fields, and writes into the receiver's state
+			type ld struct {
+				in  *ssa.UnOp
+				lbl string
+			}
+			var loads []ld
+			var writes []ssa.Instruction
+			isRecvField := func(v ssa.Value) (string, bool) {
+				fa, ok := v.(*ssa.FieldAddr)
+				if !ok || fa.X != ssa.Value(recv) {
+					return "", false
+				}
+				if isMutexT(st.Field(fa.Field).Type()) {
+					return "", false
+				}
+				return fieldLabel(recv.Type(), fa.Field), true
+			}
+			rootedInRecv := func(v ssa.Value) bool {
+				for d := 0; d < 5 && v != nil; d++ {
+					switch x := v.(type) {
+					case *ssa.FieldAddr:
+						if x.X == ssa.Value(recv) {
+							return true
+						}
+						v = x.X
+					case *ssa.UnOp:
+						v = x.X
+					case *ssa.IndexAddr:
+						v = x.X
+					default:
+						return false
+					}
+				}
+				return false
+			}
+			for _, b := range fn.Blocks {
+				for _, in := range b.Instrs {
+					switch x := in.(type) {
+					case *ssa.UnOp:
+						if x.Op == token.MUL {
+							if l, ok := isRecvField(x.X); ok {
+								// only scalar state: a loaded map or slice header is the container, not a snapshot of a value
+								switch x.Type().Underlying().(type) {
+								case *types.Basic:
+									loads = append(loads, ld{x, l})
+								}
+							}
+						}
+					case *ssa.MapUpdate:
+						if rootedInRecv(x.Map) {
+							writes = append(writes, in)
+						}
+					case *ssa.Store:
+						if rootedInRecv(x.Addr) {
+							writes = append(writes, in)
+						}
+					}
+				}
+			}
+			if len(loads) == 0 || len(writes) == 0 {
+				continue
+			}
+			nTypes++
+			var g *Graph
+			for _, l := range loads {
+				// forward slice of the loaded value
+				slice := map[ssa.Value]bool{l.in: true}
+				work := []ssa.Value{l.in}
+				for len(work) > 0 && len(slice) < 400 {
+					v := work[0]
+					work = work[1:]
+					refs := v.Referrers()
+					if refs == nil {
+						continue
+					}
+					for _, r := range *refs {
+						rv, ok := r.(ssa.Value)
+						if !ok || slice[rv] {
+							continue
+						}
+						switch r.(type) {
+						case *ssa.BinOp, *ssa.Convert, *ssa.ChangeType, *ssa.Phi, *ssa.Call, *ssa.Slice, *ssa.MakeInterface, *ssa.Extract, *ssa.UnOp:
+							slice[rv] = true
+							work = append(work, rv)
+						}
+					}
+				}
+				for _, w := range writes {
+					uses := false
+					for _, op := range w.Operands(nil) {
+						if op != nil && *op != nil && slice[*op] {
+							uses = true
+						}
+					}
+					if !uses {
+						continue
+					}
+					if g == nil {
+						g = BuildECFG(p, fn, ExpandOpts{MaxDepth: 0})
+						c.NoteGraph(g)
+					}
+					var ln, wn *Node
+					for _, nd := range g.Nodes {
+						if nd.Kind != NInstr {
+							continue
+						}
+						if nd.In == ssa.Instruction(l.in) {
+							ln = nd
+						}
+						if nd.In == w {
+							wn = nd
+						}
+					}
+					if ln == nil || wn == nil || !heldAt(g, ln, mu) || !heldAt(g, wn, mu) {
+						continue
+					}
+					isUnlock := func(x *Node) bool {
+						cn := CallName(x)
+						if cn != "(*sync.Mutex).Unlock" && cn != "(*sync.RWMutex).Unlock" && cn != "(*sync.RWMutex).RUnlock" {
+							return false
+						}
+						if _, deferred := x.In.(deferredCall); deferred {
+							return false
+						}
+						r := RecvTerm(x)
+						return r != nil && r.Op == "field" && r.Name == mu
+					}
+					// a release on a path from the load to the write
+					released := false
+					var via *Node
+					for _, u := range g.Select(isUnlock) {
+						uu := u
+						if g.PathAvoiding(ln.Succ, func(x *Node) bool { return x == uu }, nil) != nil && g.PathAvoiding(uu.Succ, func(x *Node) bool { return x == wn }, nil) != nil {
+							released, via = true, uu
+						}
+					}
+					inst := fnShort(fn) + " ⟂ " + l.lbl + " read and used in one critical section"
+					if released {
+						c.Bad(rule, inst, fnName(fn), p.InstrPos(w), "the value of "+l.lbl+" is read under the lock (@"+p.InstrPos(l.in)+"), the lock is released (@"+p.InstrPos(via.In)+"), and after it was taken again a write into the receiver's state uses what was read: by then another goroutine may have changed it — the write lands where the state no longer is (a blob filed under a DA height that has meanwhile been published and scanned as empty is never found by the scan)", nil)
+					} else {
+						c.OK(rule, inst, fnName(fn), p.InstrPos(w), "the read of "+l.lbl+" and the write that depends on it sit in one critical section", true)
+					}
+				}
+			}
+		}
+	}
+	if nTypes == 0 {
+		c.Unk(rule, "anchor-count", "", "", "anchor lost: no method of a mutex-guarded type reads and writes its state")
+	}
+}
+
+// ruleSignalTakenOnlyAtTheWait (C07-R14 = C13-R18): a signal on a worker's wake-up channel says
+// "state you care about has changed since you last looked". The worker takes a signal in one
+// place only — the blocking wait at the head of its loop — so that every signal is followed by a
+// fresh look. A second, non-blocking receive elsewhere in the loop ("drain what piled up") throws
+// away a signal that was raised after the look it is supposed to cover: the change it announced
+// is acted on only when some unrelated later signal arrives.
+func ruleSignalTakenOnlyAtTheWait(c *Check, p *Prog, rule string) {
+	c.Doc(rule, "CS: a channel field that a function of the block package receives from in a blocking select (its wake-up) is received from nowhere else in that function or its closures: no draining receive besides the wait.")
+	n := 0
+	byTop := map[*ssa.Function][]*ssa.Function{}
+	for _, fn := range p.Funcs {
+		pk := fnPkg(fn)
+		if pk == nil || pk.Pkg.Path() != rootPath+"/block" || fn.Blocks == nil {
+			continue
+		}
+		byTop[topParent(fn)] = append(byTop[topParent(fn)], fn)
+	}
+	var tops []*ssa.Function
+	for t := range byTop {
+		tops = append(tops, t)
+	}
+	sort.Slice(tops, func(i, j int) bool { return fnName(tops[i]) < fnName(tops[j]) })
+	chanField := func(v ssa.Value) string {
+		ld, ok := v.(*ssa.UnOp)
+		if !ok || ld.Op != token.MUL {
+			return ""
+		}
+		fa, ok := ld.X.(*ssa.FieldAddr)
+		if !ok {
+			return ""
+		}
+		if _, isChan := ld.Type().Underlying().(*types.Chan); !isChan {
+			return ""
+		}
+		return fieldLabel(fa.X.Type(), fa.Field)
+	}
+	for _, top := range tops {
+		waits := map[string]token.Pos{}
+		others := map[string]token.Pos{}
+		for _, fn := range byTop[top] {
+			for _, b := range fn.Blocks {
+				for _, in := range b.Instrs {
+					switch x := in.(type) {
+					case *ssa.Select:
+						for _, st := range x.States {
+							if st.Dir != types.RecvOnly {
+								continue
+							}
+							f := chanField(st.Chan)
+							if f == "" {
+								continue
+							}
+							if x.Blocking {
+								waits[f] = in.Pos()
+							} else {
+								others[f] = st.Pos
+								if others[f] == token.NoPos {
+									others[f] = in.Pos()
+								}
+							}
+						}
+					case *ssa.UnOp:
+						if x.Op == token.ARROW {
+							if f := chanField(x.X); f != "" {
+								others[f] = x.Pos()
+							}
+						}
+					}
+				}
+			}
+		}
+		var fields []string
+		for f := range waits {
+			fields = append(fields, f)
+		}
+		sort.Strings(fields)
+		for _, f := range fields {
+			n++
+			inst := fnShort(top) + " ⟂ " + f + " taken only at the wait"
+			if pos, bad := others[f]; bad {
+				c.Bad(rule, inst, fnName(top), p.Pos(pos), "the wake-up channel "+f+" is also received from outside the loop's blocking wait (a draining receive): a signal raised after the worker last looked at the state — but before the drain — is discarded, the worker goes back to waiting, and what the signal announced (a block now fully on the DA layer, new transactions) is acted on only when an unrelated later signal arrives", nil)
+			} else {
+				c.OK(rule, inst, fnName(top), p.Pos(waits[f]), "the channel is received from only in the blocking wait", true)
+			}
+		}
+	}
+	if n == 0 {
+		c.Unk(rule, "anchor-count", "", "", "anchor lost: no blocking wait on a channel field in the block package")
+	}
+	c.MinInstances(rule, 3)
 }
